@@ -125,7 +125,9 @@ type Scenario struct {
 	// seconds before the Workstream is constructed. No API thread is started.
 	BootStates []string `json:"bootStates,omitempty"`
 	BootAgeSec int      `json:"bootAge,omitempty"`
-	NoRecovery bool     `json:"noRecovery,omitempty"`
+	// CrashAgeSec (crash scenarios): the restart after a crash happens this many seconds (plus one) after the crash instant.
+	CrashAgeSec int  `json:"crashAge,omitempty"`
+	NoRecovery  bool `json:"noRecovery,omitempty"`
 	// SlowPlugins makes "time passes" the default choice while a sequence action's plugin call is parked (the plugin
 	// is slow by default and answering is the deviation); the tick budget bounds it.
 	SlowPlugins bool `json:"slowPlugins,omitempty"`
